@@ -37,7 +37,7 @@ class C15(Check):
                    'constructed set-ups run one after the other']
 
     def budget(self, tier):
-        return (16, 8) if tier == 'quick' else (200, 16)
+        return (40, 8) if tier == 'quick' else (200, 16)
 
     def strategy(self, tier):
         operand = st.fixed_dictionaries(dict(type=st.sampled_from(OPERANDS), h=f(0.0, 1.0)))
@@ -176,6 +176,7 @@ class C15(Check):
             out.cls('nominal_operand_undefined')
             return
         snap = lens_state(o)
+        Lsc = max(1.0, sum(abs(q['t']) for q in spec['surfs']))
         for p in plan:
             out.cls('pert_' + p[0], 'sampler_' + p[3])
         df = self.run(case, tol)
@@ -221,20 +222,33 @@ class C15(Check):
             comp_vals = quiet(ttol.apply_compensators)
             want = [float(np.ravel(v)[0]) for v in ttol.evaluate()]
             got = [float(row[n]) for n in names]
-            rt = 1e-6 if has_comp else 1e-9
-            sc = [max(abs(a), abs(b), 1e-9) for a, b in zip(nominal_ops, want)]
-            out.close('row_equals_twin_replay', got, want, rtol=rt, scale=sc, atol=0.0, row=ri, mode=case['mode'],
-                      comp=case['comp'])
+            # operand values are defined to ~1e-12 of the lens scale (an intercept on the axis is 0 +- round-off)
+            sc = [max(abs(a), abs(b), 1e-3 * Lsc) for a, b in zip(nominal_ops, want)]
             if has_comp:
+                # (1) the same compensation on the fresh copy ends where the recorded one did, to the optimiser's
+                #     tolerance (its path depends on round-off of the state it starts from)
+                out.close('row_equals_twin_replay', got, want, rtol=1e-3, scale=sc, atol=0.0, row=ri, mode=case['mode'],
+                          comp=case['comp'], stage='own compensation')
                 for k, v in comp_vals.items():
                     if k in row:
-                        out.close('compensator_value_recorded', float(row[k]), float(np.ravel(v)[0]), rtol=1e-6,
-                                  atol=1e-9, row=ri)
+                        out.close('compensator_value_recorded', float(row[k]), float(np.ravel(v)[0]), rtol=1e-3,
+                                  atol=1e-6, row=ri)
+                # (2) the recorded operands are exactly those of the lens with the recorded perturbation values and the
+                #     recorded compensator values
+                for i, var in enumerate(ttol.compensator.variables):
+                    key = 'C%d: %s' % (i, str(var))
+                    if key in row:
+                        var.update(float(row[key]))
+                twin.update()
+                want = [float(np.ravel(v)[0]) for v in ttol.evaluate()]
+                sc = [max(abs(a), abs(b), 1e-3 * Lsc) for a, b in zip(nominal_ops, want)]
+            out.close('row_equals_twin_replay', got, want, rtol=1e-9, scale=sc, atol=0.0, row=ri, mode=case['mode'],
+                      comp=case['comp'], stage='recorded values')
             # a perturbation equal to the nominal value reproduces the nominal operands
             if not has_comp and all(abs(val - pert_names[p][2]) <= 1e-15 * max(1.0, abs(val)) for p, val in applied
                                     if p in pert_names):
                 out.close('nominal_perturbation_reproduces_nominal', got, nominal_ops, rtol=1e-9,
-                          scale=[max(abs(a), 1e-9) for a in nominal_ops], row=ri)
+                          scale=[max(abs(a), 1e-3 * Lsc) for a in nominal_ops], row=ri)
                 out.cls('nominal_row')
             if any(not math.isfinite(g) for g in got):
                 out.cls('row_with_undefined_operand')
